@@ -52,6 +52,8 @@ class GitRepo:
 
     def store(self, typ, raws):
         """store byte strings as objects of type typ (no validation); -> list of oids"""
+        if not raws:
+            return []
         paths = []
         d = os.path.join(self.aux, "in%d" % self.n)
         self.n += 1
